@@ -220,6 +220,17 @@ Apply(key, vd, idx) ==
   /\ phase' = "applied" /\ q' = [key |-> key, vd |-> vd, opidx |-> idx]
   /\ UNCHANGED <<nl, dig, def, impl>>
 
+\* the SAME workspace object is changed in place after a successful verification and verified again: verification is
+\* a function of the current content only (no memory of earlier verdicts)
+Reverify(vd2) ==
+  /\ phase = "verified" /\ q.vd.kind = "same" /\ dres.status = "ok" /\ vd2 \in VariantsW0 /\ vd2.kind # "same"
+  /\ LET w == MkVariant(W0, vd2) IN
+     /\ wsIn' = w
+     /\ dres' = IF DefVerify(Digests, Recorded, w) THEN Returned(Null) ELSE Raises({"PatchSetVerificationError"})
+     /\ ires' = IF impl.status = "ok" THEN ImplVerify(Digests, Recorded, w) ELSE NoObject
+  /\ phase' = "reverified" /\ q' = [NoQ EXCEPT !.vd = vd2]
+  /\ UNCHANGED <<nl, dig, doc, def, impl>>
+
 TargetOps == LET t == DefLookup(def, q.key) IN IF t.status = "patch" THEN doc[t.i].ops ELSE <<>>
 Reapply ==
   /\ phase = "applied" /\ phase' = "reapplied"
@@ -234,7 +245,7 @@ LookupAny   == phase = "sealed" /\ DoLookup /\ \E k \in LookupKeys : Lookup(k)
 VerifyAny   == phase = "sealed" /\ DoVerify /\ \E vd \in VariantsW0 : Verify(vd)
 ApplyAny    == phase = "sealed" /\ DoApply /\ def.status = "ok" /\
                  \E k \in ApplyKeys : \E vd \in ApplyVariants : \E idx \in OpIdxLists : Apply(k, vd, idx)
-Next == RegisterAny \/ Seal \/ LookupAny \/ VerifyAny \/ ApplyAny \/ Reapply
+Next == RegisterAny \/ Seal \/ LookupAny \/ VerifyAny \/ (\E vd2 \in VariantsW0 : Reverify(vd2)) \/ ApplyAny \/ Reapply
 Spec == Init /\ [][Next]_vars
 
 -----------------------------------------------------------------------------
@@ -264,7 +275,7 @@ VariantsClassified == phase \in {"verified", "applied", "reapplied"} =>
   /\ q.vd.kind \in {"leaf", "swap"} => ~CanonEq(wsIn, W0)
   /\ wsIn = MkVariant(W0, q.vd)
 
-VerifyIffRecorded == phase = "verified" =>
+VerifyIffRecorded == phase \in {"verified", "reverified"} =>
   ((dres.status = "ok") <=> \A i \in DOMAIN Digests : Canon(wsIn) = Canon(Recorded[Digests[i].of]))
 
 ApplyPure == phase \in {"applied", "reapplied"} =>
@@ -275,7 +286,7 @@ ApplyPure == phase \in {"applied", "reapplied"} =>
   /\ dres.status \in {"ok", "raises"}
 
 \* -- implementation-shaped layer against the definition layer ---------------------------------
-Queried == phase \in {"looked", "verified", "applied", "reapplied"}
+Queried == phase \in {"looked", "verified", "reverified", "applied", "reapplied"}
 ImplEqDef ==
   /\ phase # "build" => ((impl.status = "ok") <=> (def.status = "ok"))
   /\ Queried => SameVerdict(dres, ires)
@@ -307,7 +318,7 @@ Hash == DocCode(1) * 7 + nl + dig * 3 + Len(q.key.kind) * 5 + Len(q.key.s) + Tup
         + Len(q.vd.path) + Len(q.vd.how) + SeqCode(q.opidx) + (IF phase = "reapplied" THEN 1 ELSE 0)
 \* sealed and verified states are always printed, and so are applications by a bookkeeping word; the rest is sampled
 Emit == (EmitCases /\ phase # "build"
-         /\ (\/ phase \in {"sealed", "verified"}
+         /\ (\/ phase \in {"sealed", "verified", "reverified"}
              \/ phase \in {"applied", "reapplied"} /\ q.key.kind = "str" /\ q.key.s \in Internal /\ dres.status = "raises"
              \/ Hash % EmitMod = EmitRes))
         => PrintT(ToJson(Case))
